@@ -231,6 +231,9 @@ func addImport(f *ast.File, name, path string) {
 			return
 		}
 	}
+	// the file has no import declaration yet
+	gd := &ast.GenDecl{Tok: token.IMPORT, Specs: []ast.Spec{&ast.ImportSpec{Name: ast.NewIdent(name), Path: &ast.BasicLit{Kind: token.STRING, Value: strconv.Quote(path)}}}}
+	f.Decls = append([]ast.Decl{gd}, f.Decls...)
 }
 
 // rewriteGo turns `go f(a, b)` into `{ _f := f; _a0 := a; _a1 := b; vsched.Go(func() { _f(_a0, _a1) }) }`
